@@ -164,6 +164,8 @@ func ErrClass(err error) string {
 	switch {
 	case errors.Is(err, dir.ErrDecode):
 		return "decodeErr"
+	case errors.Is(err, dir.ErrMarshal):
+		return "marshalErr"
 	case errors.Is(err, io.EOF):
 		return "EOF"
 	case errors.Is(err, dir.ErrTransport), errors.Is(err, io.ErrClosedPipe):
@@ -362,10 +364,11 @@ func (w *World) Apply(st Stim) bool {
 		w.mark()
 		name := fmt.Sprintf("%d.0", r)
 		switch st.Op {
-		case "Invoke":
+		case "Invoke", "InvokeBad":
+			bad := st.Op == "InvokeBad" // the request does not marshal
 			w.D.Go(st.T, func() string {
 				var out dir.Msg
-				err := w.Conn.Invoke(ctx, name, w.Enc, &dir.Msg{Data: Pad(fmt.Sprintf("%d.1", r), 1)}, &out)
+				err := w.Conn.Invoke(ctx, name, w.Enc, &dir.Msg{Data: Pad(fmt.Sprintf("%d.1", r), 1), Fail: bad}, &out)
 				if err != nil {
 					w.setCode(st.T, err)
 					return ErrClass(err)
